@@ -22,9 +22,9 @@ CHECKS = {
 SK = "TLA+ spec (Sketch.tla) + TLC model checking + TLC-generated behaviours replayed on real sketches"
 CHECKS.update({
  "C01": ("sketch", "TLC checks K_Rank/K_Ends/K_Monotone of Sketch.tla over every multiset of value tokens added one at a time; every generated history is replayed on real sketches (3 mapping kinds x alphas x dense/sparse/paginated x key embeddings at 1.0, the smallest and the largest indexable bins) and after every step each q=a/8 answer must be within alpha of a token holding the order statistic of rank floor or ceil of q(n-1) in the specification's bag. Direction B: executions of real sketches with thousands of values (the test generators' shapes, hundreds of bins) are recorded with quantile queries at EVERY k/(n-1) and both float neighbours (exact floor/ceil ranks by math/big) and validated by TLC (Trace_Sketch.tla).",
-   TRUST + " Values are bin-extreme float64 found by bisection on the real Index(); numeric predicate |y-x| <= alpha|x| + 2e-12|x| (abstraction relation R). q on the dyadic grid a/8 in direction A, arbitrary float64 q in direction B.", SK + " + TLC trace validation of recorded sketch executions", "6 (C01)"),
+   TRUST + " Values are bin-extreme float64 found by bisection on the real Index(); numeric predicate |y-x| <= alpha|x| + 2e-12|x| (abstraction relation R). q on the grids a/8 and k/72 (bulk-add tree: every integer rank) in direction A; arbitrary float64 q (k/(n-1) with float neighbours, both sides of every bin boundary) in direction B.", SK + " + TLC trace validation of recorded sketch executions", "6 (C01)"),
  "C02": ("sketch", "TLC checks K_Merge/K_Content/K_OnlyReceiverChanges for every interleaving of Add/Merge/Clear over 3 sketches; each generated history is replayed on real sketches (all mixes of non-collapsing store kinds, mappings, alphas; both variants) and after every merge the receiver must answer bit-for-bit like a single fresh sketch fed the multiset the specification attributes to it, while every non-receiver keeps its snapshot.",
-   TRUST + " The union multiset is the specification's ghost bag; the comparison is real sketch vs real sketch.", SK + " (twin sketch fed the specification's bag)", "6 (C02)"),
+   TRUST + " The union multiset is the specification's ghost bag; the comparison is real sketch vs real sketch. Simulated merge trees also merge through Encode + DecodeAndMergeWith; every other slot is built by the library's preset constructors where one matches.", SK + " (twin sketch fed the specification's bag)", "6 (C02)"),
  "C10": ("sketch", "TLC checks X_Stats (exact count/min/max are functions of the absorbed multiset) over histories of the exact variant (adds incl. weight 0 and refused values, merge, copy, clear, reweight, encode/decode); generated histories are replayed on real DDSketchWithExactSummaryStatistics: count/min/max == the specification's, sum within 16*2^-53*sum|v*w| of the exact rational sum (math/big), quantiles == plain answers clamped to [min,max].",
    TRUST + " Abstraction relation R for token values; sums near MaxFloat64 (overflow) not compared; ChangeMapping's rescaling is under C17.", SK, "6 (C10)"),
  "C11": ("sketch", "TLC checks the weighted K_Rank (answer bin holds a token whose cumulative-weight interval is within one unit of q(W-1)) for all weighted multisets with weights 1/4..3 units and totals from 1/4 unit (weighted adds and Reweight); generated histories are replayed on real sketches and every q=a/8 answer must be within alpha of an allowed token and between the reported min and max.",
